@@ -9,7 +9,70 @@ SPW = "src/actor/spawner.rs"
 SMOL = "src/actor/spawner/smol_spawner.rs"
 TOK = "src/actor/spawner/tokio_spawner.rs"
 AH = "src/actor/spawner/actor_handle.rs"
+CH = "src/channel.rs"
 MUTANTS = [
+ {"name": "chan_force_path_second_queue", "why": "the force path of a bounded mailbox gets its own queue: call/ping/stop overtake or never reach the actor", "expect": {"props": ["C01"], "obligation": "chan.bounded-one-queue-for-both-paths-and-receiver"},
+  "edits": [(CH, """        let (tx, mut rx) = futures::channel::mpsc::channel::<Payload<A>>(buffer);
+        let tx2 = tx.clone();""", """        let (tx2, mut rx) = futures::channel::mpsc::channel::<Payload<A>>(buffer);
+        let (tx, _rx_force) = futures::channel::mpsc::channel::<Payload<A>>(buffer);""")]},
+ {"name": "chan_bounded_capacity_fixed", "why": "bounded(n) ignores n", "expect": {"props": ["C12"], "obligation": "chan.bounded-capacity-as-requested"},
+  "edits": [(CH, "futures::channel::mpsc::channel::<Payload<A>>(buffer);", "futures::channel::mpsc::channel::<Payload<A>>(64);")]},
+ {"name": "chan_waiting_path_degraded", "why": "the waiting closure of a bounded mailbox uses start_send: send never waits, no backpressure", "expect": {"props": ["C12"], "obligation": "chan.bounded-send-is-the-waiting-submit-on-this-queue"},
+  "edits": [(CH, """                Box::pin(async move {
+                    let mut tx = tx.clone();
+                    futures::SinkExt::send(&mut tx, event).await?;
+                    Ok(())
+                })
+            },
+        );
+
+        let force_send = Arc::new(move |event: Payload<A>| -> Result<()> {
+            let mut tx = tx.clone();
+            // THIS IS A BUG!""", """                Box::pin(async move {
+                    let mut tx = tx.clone();
+                    tx.start_send(event)?;
+                    Ok(())
+                })
+            },
+        );
+
+        let force_send = Arc::new(move |event: Payload<A>| -> Result<()> {
+            let mut tx = tx.clone();
+            // THIS IS A BUG!""")]},
+ {"name": "addr_send_swallows_enqueue_error", "why": "send reports Ok although the mailbox refused the message", "expect": {"props": ["C01"], "obligation": "send.own-payload-enqueued-once-through-the-waiting-path"},
+  "edits": [(ADDR, """                Box::pin(Handler::handle(actor, ctx, msg))
+            }))
+            .await?;
+        Ok(())""", """                Box::pin(Handler::handle(actor, ctx, msg))
+            }))
+            .await
+            .ok();
+        Ok(())""")]},
+ {"name": "addr_halt_does_not_wait", "why": "halt returns as soon as the stop request is queued", "expect": {"props": ["C04"], "obligation": "halt.ok-only-after-graceful-termination-was-announced"},
+  "edits": [(ADDR, "        self.stop()?;\n        self.await\n", "        self.stop()?;\n        Ok(())\n")]},
+ {"name": "addr_future_maps_failure_to_ok", "why": "awaiting the address of a failed actor yields Ok", "expect": {"props": ["C04"], "obligation": "addr-future.ok-exactly-when-graceful"},
+  "edits": [(ADDR, "            .map(|p| p.map_err(Into::into))", "            .map(|_p| Ok(()))")]},
+ {"name": "addr_call_through_waiting_path", "why": "call submits through the waiting path: it can be parked behind a full bounded mailbox and is no longer the non-waiting path the statement names", "expect": {"props": ["C12"], "obligation": "call.own-payload-enqueued-once-on-the-actors-queue-before-waiting"},
+  "edits": [(ADDR, """        self.payload_force_tx
+            .send(Payload::task(move |actor, ctx| {
+                log::trace!("handling task call");""", """        self.payload_tx
+            .send(Payload::task(move |actor, ctx| {
+                log::trace!("handling task call");"""), (ADDR, """                    let _ = tx_response.send(res);
+                })
+            }))?;""", """                    let _ = tx_response.send(res);
+                })
+            }))
+            .await?;""")]},
+ {"name": "addr_call_payload_answers_unit_before_handling", "why": "ping answers, then nothing: harmless variant of reordering inside ping payload must stay green", "expect": {"green": True, "props": ["C02"]},
+  "edits": [(ADDR, """                Box::pin(async move {
+                    let _ = tx_response.send(());
+                })""", """                Box::pin(async move {
+                    let sent = tx_response.send(());
+                    let _ = sent;
+                })""")]},
+ {"name": "addr_consume_skips_stop", "why": "consume joins without ever stopping the actor: it hangs on a live actor", "expect": {"props": ["C17"], "obligation": "consume.stops-the-actor-first"},
+  "edits": [(ADDR, """        log::trace!("consuming actor");
+        self.addr.stop()?;""", """        log::trace!("consuming actor");""")]},
  {"name": "spawn_stream_builder_drops_handle", "why": "the C18 defect: the handle is dropped, smol cancels the actor", "expect": {"props": ["C18"], "obligation": "stream-builder.spawn-keeps-the-actor-running"},
   "edits": [(BLD, "        let (event_loop, addr) = env.create_loop_on_stream(actor, stream);\n        P::spawn_actor(event_loop).detach();\n        addr", "        let (event_loop, addr) = env.create_loop_on_stream(actor, stream);\n        let _handle = P::spawn_actor(event_loop);\n        addr")]},
  {"name": "spawn_builder_spawn_drops_handle", "why": "ActorBuilderWithChannel::spawn forgets to detach", "expect": {"props": ["C18"], "obligation": "builder.spawn-spawns-what-was-configured-and-keeps-it-running"},
